@@ -285,6 +285,14 @@ func c10Packet(c *h.Ctx, kind string, key interface{}, p c10Pkt, judgeHere bool)
 	smp := map[string]interface{}{"kind": kind, "key": key}
 	var out []byte
 	var err error
+	// a Marshal that FAILS part-way (second question with a 17-byte name) immediately before the valid one: a rejected call
+	// leaves nothing behind, in the packet or in the package
+	h.Guard(func() {
+		bad := &nbtns.NBTNSPacket{Header: nbtns.NBTNSHeader{TransactionID: 0xDEAD, Questions: 2},
+			Questions: []nbtns.NBTNSQuestion{{Name: &nbtns.NetBIOSName{Name: "OK"}, Type: 0x20, Class: 1},
+				{Name: &nbtns.NetBIOSName{Name: "SEVENTEEN-BYTES-X"}, Type: 0x20, Class: 1}}}
+		bad.Marshal()
+	})
 	if pn := h.Guard(func() { out, err = c10Lib(p).Marshal() }); pn != "" {
 		c.Fail(c10Mar, "panic", pn, smp)
 		return nil
